@@ -6,6 +6,7 @@ import time
 
 from .facts import Facts
 from .core import Program
+from .world import World
 from . import extract
 
 VERIF = extract.VERIF
@@ -82,6 +83,7 @@ class Ctx:
         self.tree_hash = th
         self.paths = paths
         self._progs = {}
+        self._worlds = {}
 
     def prog(self, cfg):
         p = self._progs.get(cfg)
@@ -90,10 +92,17 @@ class Ctx:
             self._progs[cfg] = p
         return p
 
-    def progs(self, pred=None):
+    def world(self, cfg):
+        w = self._worlds.get(cfg)
+        if w is None:
+            w = World(self.prog(cfg))
+            self._worlds[cfg] = w
+        return w
+
+    def worlds(self, pred=None):
         for c in self.configs:
             if pred is None or pred(c):
-                yield c, self.prog(c)
+                yield c, self.world(c)
 
 
 # ----------------------------------------------------------------- known findings
